@@ -381,73 +381,155 @@ func main() {
 		fmt.Sscanf(s, "%d", &n)
 		budget = time.Duration(n) * time.Second
 	}
-	deadline := time.Now().Add(budget)
-	var all []*scnResult
-	exhaustive := true
-	for si, sc := range scs {
-		lastExecs := -1
+	if prop == "C15" && tier != "thorough" && os.Getenv("VERIF_BUDGET_S") == "" {
+		budget = 300 * time.Second // C15 runs every scenario of every property
+	}
+	start := time.Now()
+	deadline := start.Add(budget)
+	// Phase 1: scenarios in parallel, one child process per (scenario, bound); a bound that does not finish within
+	// its slice is left to phase 2. Phase 2: the remaining scenarios one after the other, each bound sharded
+	// over all cores, with an equal share of the remaining time (unused time rolls over).
+	type scnState struct {
+		sc        *Scn
+		total     *scnResult
+		idx       map[string]*ev.Violation
+		bounds    []int
+		next      int
+		completed int
+		lastExecs int
+		done      bool
+	}
+	var sts []*scnState
+	for _, sc := range scs {
 		B := boundOf(sc, tier)
-		total := newRes(sc, B)
-		idx := map[string]*ev.Violation{}
-		// time slice of this scenario: an equal share of what is left (unused time rolls over to later scenarios)
-		left := len(scs) - si
-		scDeadline := time.Now().Add(time.Until(deadline) / time.Duration(left))
-		var bounds []int
+		st := &scnState{sc: sc, total: newRes(sc, B), idx: map[string]*ev.Violation{}, completed: -2, lastExecs: -1}
 		switch {
 		case tier == "thorough":
-			// at least the scenario's bound, then as deep as the slice allows, finally every schedule
-			bounds = []int{0, 1, 2, 3, 4, 5, 6, 8, -1}
+			// at least the scenario's bound, then as deep as the time allows, finally every schedule
+			st.bounds = []int{0, 1, 2, 3, 4, 5, 6, 8, -1}
 			if B == 0 {
-				bounds = []int{0}
+				st.bounds = []int{0}
 			}
 		case B < 0:
-			bounds = []int{0, 1, 2, -1}
+			st.bounds = []int{0, 1, 2, -1}
 		default:
 			for b := 0; b <= B; b++ {
-				bounds = append(bounds, b)
+				st.bounds = append(st.bounds, b)
 			}
 		}
-		completed := -2
-		for _, b := range bounds {
-			if time.Now().After(scDeadline) {
-				total.CapHit = true
-				break
+		sts = append(sts, st)
+	}
+	// absorb merges the result of one completed bound; reports whether the scenario is finished
+	absorb := func(st *scnState, b int, res *scnResult) {
+		total := st.total
+		// the last completed bound's numbers are the scenario's (lower bounds are subsets)
+		total.Execs, total.Steps, total.States, total.Pruned, total.Horizons, total.Deadlocks, total.Crashes = 0, 0, 0, 0, 0, 0, 0
+		total.Outcomes = map[string]int{}
+		total.ClientOutc = map[string]int{}
+		merge(total, res, st.idx)
+		st.completed = b
+		st.next++
+		if b >= 2 && res.Execs > 0 && res.Pruned == 0 && res.Execs == st.lastExecs {
+			st.completed = -1 // a higher bound found no new schedule: the tree is exhausted, every schedule was explored
+			st.done = true
+		}
+		st.lastExecs = res.Execs
+		if st.next >= len(st.bounds) {
+			st.done = true
+		}
+	}
+	partial := func(st *scnState, b int, res *scnResult) {
+		// this bound did not complete: keep the numbers of the last completed bound, remember the cap
+		for _, v := range res.Viol {
+			if _, ok := st.idx[v.Key]; !ok {
+				st.idx[v.Key] = v
+				st.total.Viol = append(st.total.Viol, v)
 			}
-			res := exploreSharded(prop, sc, b, scDeadline)
-			if res.CapHit {
-				// this bound did not complete: keep the numbers of the last completed bound, remember the cap
-				for _, v := range res.Viol {
-					if _, ok := idx[v.Key]; !ok {
-						idx[v.Key] = v
-						total.Viol = append(total.Viol, v)
+		}
+		st.total.CapHit = true
+		st.total.Inconclusive = st.total.Inconclusive || res.Inconclusive
+		st.total.PartialBound, st.total.PartialExecs = b, res.Execs
+	}
+	phase1End := start.Add(budget * 6 / 10)
+	perChild := 20 * time.Second
+	if tier == "thorough" {
+		phase1End = start.Add(budget * 4 / 10)
+		perChild = 45 * time.Second
+	}
+	{
+		var wg sync.WaitGroup
+		queue := make(chan *scnState, len(sts))
+		for _, st := range sts {
+			queue <- st
+		}
+		close(queue)
+		for w := 0; w < runtime.NumCPU(); w++ {
+			wg.Add(1)
+			go func() {
+				defer wg.Done()
+				for st := range queue {
+					for !st.done {
+						b := st.bounds[st.next]
+						d := time.Now().Add(perChild)
+						if d.After(phase1End) {
+							d = phase1End
+						}
+						if !time.Now().Before(d) {
+							break
+						}
+						res := exploreSingle(prop, st.sc, b, d)
+						if res.CapHit {
+							if res.Inconclusive {
+								partial(st, b, res)
+							}
+							break // left to phase 2 (sharded)
+						}
+						absorb(st, b, res)
 					}
 				}
-				total.CapHit = true
-				total.Inconclusive = total.Inconclusive || res.Inconclusive
-				total.PartialBound, total.PartialExecs = b, res.Execs
-				break
-			}
-			// the last completed bound's numbers are the scenario's (lower bounds are subsets)
-			total.Execs, total.Steps, total.States, total.Pruned, total.Horizons, total.Deadlocks, total.Crashes = 0, 0, 0, 0, 0, 0, 0
-			total.Outcomes = map[string]int{}
-			total.ClientOutc = map[string]int{}
-			merge(total, res, idx)
-			completed = b
-			if b >= 2 && res.Execs > 0 && res.Pruned == 0 && res.Execs == lastExecs {
-				completed = -1 // a higher bound found no new schedule: the tree is exhausted, every schedule was explored
-				break
-			}
-			lastExecs = res.Execs
+			}()
 		}
-		total.Bound = completed
-		if (total.CapHit && tier != "thorough") || total.Horizons > 0 || total.Inconclusive || completed == -2 {
+		wg.Wait()
+	}
+	var rest []*scnState
+	for _, st := range sts {
+		if !st.done {
+			rest = append(rest, st)
+		}
+	}
+	for si, st := range rest {
+		left := len(rest) - si
+		scDeadline := time.Now().Add(time.Until(deadline) / time.Duration(left))
+		for !st.done {
+			b := st.bounds[st.next]
+			if time.Now().After(scDeadline) {
+				st.total.CapHit = true
+				break
+			}
+			res := exploreSharded(prop, st.sc, b, scDeadline)
+			if res.CapHit {
+				partial(st, b, res)
+				break
+			}
+			absorb(st, b, res)
+		}
+	}
+	var all []*scnResult
+	exhaustive := true
+	for _, st := range sts {
+		total, sc := st.total, st.sc
+		total.Bound = st.completed
+		if st.done {
+			total.CapHit = total.CapHit && total.Inconclusive
+		}
+		if (total.CapHit && tier != "thorough") || total.Horizons > 0 || total.Inconclusive || st.completed == -2 {
 			exhaustive = false
 		}
-		if tier == "thorough" && completed != -1 {
+		if tier == "thorough" && st.completed != -1 {
 			exhaustive = false // thorough aims at all schedules; anything less is reported as a bound, not as exhaustive
 		}
 		realWG.Add(1)
-		go func(sc *Scn, total *scnResult) { // real-socket replays run beside the exploration of the next scenarios
+		go func(sc *Scn, total *scnResult) {
 			defer realWG.Done()
 			realSem <- struct{}{}
 			defer func() { <-realSem }()
@@ -583,6 +665,25 @@ func runChild(j *job, out interface{}) error {
 // exploreSharded: a child process expands the tree until there are enough pending prefixes, then the
 // subtrees are explored in parallel child processes. The parent never executes scenario code itself, so
 // a scenario that blocks natively (watchdog) or crashes only makes its own subtrees inconclusive.
+// exploreSingle explores one bound of a scenario in one child process (best pruning, no parallelism).
+func exploreSingle(prop string, sc *Scn, bound int, deadline time.Time) *scnResult {
+	total := newRes(sc, bound)
+	idx := map[string]*ev.Violation{}
+	var eo expandOut
+	if err := runChild(&job{Mode: "expand", Want: 1 << 30, Prop: prop, Scenario: sc.Name, Bound: bound, Deadline: deadline.Unix()}, &eo); err != nil {
+		fmt.Fprintf(os.Stderr, "sched: scenario %s (bound %d): worker failed (%v): inconclusive\n", sc.Name, bound, err)
+		total.CapHit = true
+		total.Inconclusive = true
+		return total
+	}
+	if eo.NonDet != "" {
+		fmt.Fprintf(os.Stderr, "sched: scenario %s is not deterministic under replay (checker error): %s\n", sc.Name, eo.NonDet)
+		os.Exit(2)
+	}
+	merge(total, eo.Res, idx)
+	return total
+}
+
 func exploreSharded(prop string, sc *Scn, bound int, deadline time.Time) *scnResult {
 	total := newRes(sc, bound)
 	idx := map[string]*ev.Violation{}
